@@ -667,6 +667,107 @@ theorem ts_clamps (bucketTs ts : Nat) :
   have : ¬ bucketTs < ts := by omega
   simp [tsFromTL, this, h]
 
+/-! ### the row identity: Key.MarshalAppend is injective
+
+  The marshalled key is the map key of MultiItemMap on the agent (bucket) and on the aggregator (shard): two different
+  keys must never share it, otherwise one key is not reconstructed and the other carries both rows' aggregates. -/
+
+section marshal
+
+theorem split_at_sep {β : Type} (x : β) : ∀ (a b r r' : List β), x ∉ a → x ∉ b → a ++ x :: r = b ++ x :: r' → a = b ∧ r = r'
+  | [], [], r, r', _, _, h => by simpa using h
+  | [], y :: b, r, r', _, hb, h => by
+    simp at h
+    exact absurd h.1 (fun e => hb (by simp [e]))
+  | y :: a, [], r, r', ha, _, h => by
+    simp at h
+    exact absurd h.1 (fun e => ha (by simp [e]))
+  | y :: a, z :: b, r, r', ha, hb, h => by
+    simp at h
+    obtain ⟨h1, h2⟩ := h
+    have := split_at_sep x a b r r' (fun m => ha (by simp [m])) (fun m => hb (by simp [m])) h2
+    exact ⟨by rw [h1, this.1], this.2⟩
+
+/-- zero-terminated NUL-free strings can be read back unambiguously -/
+theorem terminated_inj : ∀ (l1 l2 : List Str), (∀ s ∈ l1, nul ∉ s) → (∀ s ∈ l2, nul ∉ s) →
+    terminated l1 = terminated l2 → l1 = l2
+  | [], [], _, _, _ => rfl
+  | [], s :: l2, _, _, h => by
+    simp [terminated] at h
+  | s :: l1, [], _, _, h => by
+    simp [terminated] at h
+  | s1 :: l1, s2 :: l2, h1, h2, h => by
+    have h' : s1 ++ nul :: terminated l1 = s2 ++ nul :: terminated l2 := by
+      simpa [terminated, List.append_assoc] using h
+    obtain ⟨e1, e2⟩ := split_at_sep nul s1 s2 _ _ (h1 s1 (by simp)) (h2 s2 (by simp)) h'
+    have := terminated_inj l1 l2 (fun s hs => h1 s (by simp [hs])) (fun s hs => h2 s (by simp [hs])) e2
+    rw [e1, this]
+
+theorem terminated_len (l : List Str) (hne : l ≠ []) : 1 ≤ (terminated l).length := by
+  cases l with
+  | nil => exact absurd rfl hne
+  | cons s l => simp [terminated]; omega
+
+/-- the string section of the tree's MarshalAppend determines the (trailing-empties-trimmed) string tags -/
+theorem stagSection_inj (s1 s2 : List Str) (h1 : ∀ s ∈ s1, nul ∉ s) (h2 : ∀ s ∈ s2, nul ∉ s)
+    (h : stagSection false s1 = stagSection false s2) :
+    dropTrailing (fun (x : Str) => x.isEmpty) s1 = dropTrailing (fun (x : Str) => x.isEmpty) s2 := by
+  have sub : ∀ (l : List Str), ∀ s ∈ dropTrailing (fun (x : Str) => x.isEmpty) l, s ∈ l := by
+    intro l s hs
+    unfold dropTrailing at hs
+    have := List.mem_reverse.mp hs
+    exact List.mem_reverse.mp ((List.dropWhile_sublist _).subset this)
+  have hf : ∀ l : List Str, l.filter (fun _ => true) = l := fun l => by induction l <;> simp_all
+  unfold stagSection at h
+  simp only [Bool.false_and, Bool.not_false, hf] at h
+  by_cases e1 : (dropTrailing (fun (x : Str) => x.isEmpty) s1).isEmpty = true
+  · by_cases e2 : (dropTrailing (fun (x : Str) => x.isEmpty) s2).isEmpty = true
+    · rw [List.isEmpty_iff.mp e1, List.isEmpty_iff.mp e2]
+    · simp only [e1, e2, if_true, Bool.false_eq_true, if_false] at h
+      have hne : dropTrailing (fun (x : Str) => x.isEmpty) s2 ≠ [] := fun e => e2 (by simp [e])
+      have := terminated_len _ hne
+      have hl := congrArg List.length h
+      rw [List.length_append] at hl
+      simp only [List.length_cons, List.length_nil] at hl
+      omega
+  · by_cases e2 : (dropTrailing (fun (x : Str) => x.isEmpty) s2).isEmpty = true
+    · simp only [e1, e2, if_true, Bool.false_eq_true, if_false] at h
+      have hne : dropTrailing (fun (x : Str) => x.isEmpty) s1 ≠ [] := fun e => e1 (by simp [e])
+      have := terminated_len _ hne
+      have hl := congrArg List.length h
+      rw [List.length_append] at hl
+      simp only [List.length_cons, List.length_nil] at hl
+      omega
+    · simp only [e1, e2, Bool.false_eq_true, if_false] at h
+      have h' := List.append_cancel_right h
+      exact terminated_inj _ _ (fun s hs => h1 s (sub s1 s hs)) (fun s hs => h2 s (sub s2 s hs)) h'
+
+/-- **Key.MarshalAppend is injective** on keys with tag arrays of the same size whose string tags contain no NUL byte:
+    equal marshalled bytes ⇒ the same key (every tag and string tag in the same POSITION). -/
+theorem marshal_injective (k1 k2 : Key) (n : Nat)
+    (ht1 : k1.tags.length = n) (ht2 : k2.tags.length = n) (hs1 : k1.stags.length = n) (hs2 : k2.stags.length = n)
+    (hn1 : ∀ s ∈ k1.stags, nul ∉ s) (hn2 : ∀ s ∈ k2.stags, nul ∉ s)
+    (h : marshalKey k1 = marshalKey k2) : k1 = k2 := by
+  simp only [marshalKey, marshalKeyV, Marshalled.mk.injEq] at h
+  obtain ⟨e1, e2, e3, e4⟩ := h
+  have e4' := stagSection_inj _ _ hn1 hn2 e4
+  apply key_ext _ _ e1 e2
+  · rw [← pad_dropTrailing (fun x => x == 0) (0 : Int) (by intro x hx; simpa using hx) n k1.tags ht1,
+      ← pad_dropTrailing (fun x => x == 0) (0 : Int) (by intro x hx; simpa using hx) n k2.tags ht2, e3]
+  · rw [← pad_dropTrailing (fun (x : Str) => x.isEmpty) ([] : Str) (by intro x hx; simpa using hx) n k1.stags hs1,
+      ← pad_dropTrailing (fun (x : Str) => x.isEmpty) ([] : Str) (by intro x hx; simpa using hx) n k2.stags hs2, e4']
+
+/-- non-vacuity and the seeded variant C02-r5-1 ("unset string tags take no space"): two keys that differ only in the
+    POSITION of equal string-tag values are distinct, satisfy the hypotheses, marshal differently in the tree — and
+    marshal to the same bytes in the variant (the aggregator would merge the two rows). -/
+def keyA : Key := ⟨5, 7, [0, 3, 0, 0], [[], ['c', 'o'], [], ['e', 'u']]⟩
+def keyB : Key := ⟨5, 7, [0, 3, 0, 0], [[], [], ['c', 'o'], ['e', 'u']]⟩
+
+example : keyA ≠ keyB ∧ keyA.tags.length = 4 ∧ keyB.stags.length = 4 ∧ (∀ s ∈ keyA.stags, nul ∉ s) ∧
+    marshalKey keyA ≠ marshalKey keyB ∧ marshalKeyV true keyA = marshalKeyV true keyB := by decide
+
+end marshal
+
 /-! ### string tops and the whole row -/
 
 /-- a string-top key as the agent stores it: not empty and normalized -/
